@@ -1,4 +1,6 @@
 """C14 — single-entry operations act on exactly (in-root parent, final name)."""
+import re
+
 from ..cfg import cfg_of
 from ..common import *
 from ..cut import result_edges, bool_edges
@@ -384,67 +386,35 @@ def r4_create_file(ctx):
 
 
 def _flags_for_variant(ctx, body, param_local, vi):
-    """unlinkat flag constants reaching the sink when the enum parameter has variant index vi: walk the CFG
-    taking, at every switch on the parameter's discriminant, the edge for vi and, at `?` switches, the
-    Continue edge."""
+    """Constant flag values that can reach the unlinkat call when the enum parameter holds variant `vi`: the function
+    is specialised on that variant (variant-sensitive reachability) and only definitions in reachable blocks count."""
     T = ctx.tracer
     cfg = cfg_of(body)
-    bb = cfg.entry
-    visited = []
-    steps = 0
-    while steps < 400:
-        steps += 1
-        visited.append(bb)
-        blk = body.blocks[bb]
-        t = blk.term
-        es = cfg.succ.get(bb, [])
-        if t.kind == "switch":
-            d = Operand(t.raw["d"])
-            onparam = False
-            if d.place is not None:
-                for o in T.origins_of_operand(body, bb, len(blk.stmts), d):
-                    if o.kind == "expr" and o.stmt is not None and o.stmt.rv["k"] == "discr":
-                        pl = o.stmt.rv_place()
-                        if pl is not None and pl.local == param_local:
-                            onparam = True
-            if onparam:
-                nxt = [e for e in es if e.label == ("sw", vi)] or [e for e in es if e.label == ("sw", "otherwise")]
-            else:
-                # a switch on something else (a `?`, the Option holding the name): take the edge that can still reach the sink
-                sinks_ = [c.bb for c in body.calls("syscalls::unlinkat")]
-                cand = [e for e in es if any(sb in cfg.reachable(e.dst) for sb in sinks_)]
-                nxt = cand[:1] if len(cand) == 1 else ([e for e in es if e.label == ("sw", 0)] or es[:1])
-        else:
-            nxt = es[:1]
-        if t.kind == "call" and t.callee == "syscalls::unlinkat":
-            vals = set()
-            bits = shared(ctx)[0].bits_of(body.path)
-            for o in T.origins_of_arg(t, 2):
-                site = None
-                if o.kind == "const":
-                    vals.add(o.const_int())
-                    continue
-                if o.kind == "call" and o.term.callee.endswith("::empty"):
-                    if o.term.bb in visited:
-                        vals.add(0)
-                    continue
-            # constants assigned on the visited path only
-            res = set()
-            for o in T.origins_of_arg(t, 2):
-                if o.kind == "const":
-                    # find the assigning statement's block
-                    for vb in visited:
-                        for st in body.blocks[vb].stmts:
-                            if st.kind == "assign" and st.rv["k"] == "use" and st.rv_operands() and st.rv_operands()[0].is_const and \
-                               "AtFlags" in (st.rv_operands()[0].const.get("ty") or "") and st.rv_operands()[0].int_value() == o.const_int():
-                                res.add(o.const_int())
-                elif o.kind == "call" and o.term.callee.endswith("::empty") and o.term.bb in visited:
-                    res.add(0)
-            return res
-        if not nxt or t.kind == "ret":
-            return set()
-        bb = nxt[0].dst
-    return set()
+    adt = re.sub(r"<.*$", "", body.local_tys[param_local])
+    reach = cfg.reach_assuming({param_local: (adt, vi)})
+    res = set()
+    for t in body.calls("syscalls::unlinkat"):
+        if t.bb not in reach:
+            continue
+        for o in T.origins_of_arg(t, 2):
+            if o.kind == "const":
+                # the statement that introduced the constant must lie on a reachable block
+                val = o.const_int()
+                for vb in reach:
+                    for st in body.blocks[vb].stmts:
+                        if st.kind == "assign" and st.rv["k"] == "use" and st.rv_operands() and st.rv_operands()[0].is_const and \
+                                "AtFlags" in (st.rv_operands()[0].const.get("ty") or "") and st.rv_operands()[0].int_value() == val:
+                            res.add(val)
+                    tt = body.blocks[vb].term
+                    if tt.kind == "call" and any(a.is_const and "AtFlags" in (a.const.get("ty") or "") and a.int_value() == val for a in tt.args):
+                        res.add(val)
+            elif o.kind == "call" and o.term.bb not in reach:
+                continue
+            elif o.kind == "call" and (o.term.callee or "").endswith("::empty"):
+                res.add(0)
+            elif o.kind == "call":
+                res.add("call:%s" % o.term.callee)
+    return res
 
 
 def r5_flags(ctx):
